@@ -118,6 +118,8 @@ type stDoc struct {
 	ID      string   // id the array came with ("" = none)
 	IDs     []string // ids issued for this URI so far
 	LastSrv string   // id the server issued last for this URI ("" after close)
+	ArrText string   // text the held array was verified against by a full request
+	ArrOK   bool
 }
 
 func (c17) Run(ctx *RunCtx) {
@@ -241,6 +243,7 @@ func (c17) Run(ctx *RunCtx) {
 		if a.data == nil {
 			doc.Arr = []uint32{}
 		}
+		doc.ArrText, doc.ArrOK = doc.Buf.String(), true
 		return doc.Arr, true
 	}
 	nops := c.Range("nops", 6, 40)
@@ -250,7 +253,7 @@ func (c17) Run(ctx *RunCtx) {
 			text, eol := GenText(c)
 			doc.Buf, doc.EOL, doc.Open = BufOf(text), eol, true
 			doc.Ver++
-			doc.HasArr, doc.ID, doc.Arr = false, "", nil
+			doc.HasArr, doc.ID, doc.Arr, doc.ArrOK = false, "", nil, false
 			d.Notify("textDocument/didOpen", J{"textDocument": J{"uri": doc.URI, "languageId": "hledger", "version": doc.Ver, "text": text}})
 			ctx.T("op%d didOpen d%d eol=%q text=%q", op, doc.No, eol, trunc(text, 100))
 			kinds = append(kinds, "open")
@@ -285,36 +288,57 @@ func (c17) Run(ctx *RunCtx) {
 			}
 			ctx.T("op%d full d%d -> id %q, %d tokens", op, doc.No, doc.ID, len(doc.Arr)/5)
 			kinds = append(kinds, "full")
-		case 3: // range
+		case 3: // range: 1..3 requests in a row, judged against ONE full result
 			lens := doc.Buf.LineLens()
-			l1 := c.Choose("range-l1", len(lens))
-			l2 := l1 + c.Choose("range-span", len(lens)-l1)
-			r := d.Call("textDocument/semanticTokens/range", J{"textDocument": docID(doc.URI), "range": rng(l1, 0, l2, lens[l2])})
-			if r == nil {
-				fail("liveness", "no-response", "semanticTokens/range not answered")
-				return
+			type rangeAns struct {
+				l1, l2 int
+				data   []uint32
 			}
-			a, bad := parse(r.Result)
-			if bad != "" || a.isDelta {
-				fail("well-formed", "range-answer-shape", bad)
-				return
+			var answers []rangeAns
+			nr := 1 + c.Weighted("ranges-in-a-row", []int{4, 3, 2})
+			for k := 0; k < nr; k++ {
+				l1 := c.Choose("range-l1", len(lens))
+				l2 := l1 + c.Choose("range-span", len(lens)-l1)
+				r := d.Call("textDocument/semanticTokens/range", J{"textDocument": docID(doc.URI), "range": rng(l1, 0, l2, lens[l2])})
+				if r == nil {
+					fail("liveness", "no-response", "semanticTokens/range not answered")
+					return
+				}
+				a, bad := parse(r.Result)
+				if bad != "" || a.isDelta {
+					fail("well-formed", "range-answer-shape", bad)
+					return
+				}
+				answers = append(answers, rangeAns{l1, l2, a.data})
 			}
-			full, ok := askFull(doc, "reference for range")
-			if !ok {
-				return
-			}
-			ft, _ := decodeTokens(full)
-			var want []tokAbs
-			for _, t := range ft {
-				if t.line >= l1 && t.line <= l2 {
-					want = append(want, t)
+			// the reference: the array the client already holds when it was verified
+			// against this very text (so that no full request refreshes the server's
+			// cache between range requests and later deltas), else a full request
+			var full []uint32
+			if doc.ArrOK && doc.ArrText == doc.Buf.String() && c.Pct("reuse-held-array", 70) {
+				full = doc.Arr
+				ctx.Stats.Inc("probe:range-judged-without-intermediate-full")
+			} else {
+				var ok bool
+				full, ok = askFull(doc, "reference for range")
+				if !ok {
+					return
 				}
 			}
-			if !sameData(a.data, encodeAbs(want)) {
-				fail("range", "range-differs-from-restricted-full", fmt.Sprintf("semanticTokens/range lines %d..%d of d%d returned %v; the full result restricted to these lines is %v; text=%q", l1, l2, doc.No, a.data, encodeAbs(want), trunc(doc.Buf.String(), 200)))
-				return
+			ft, _ := decodeTokens(full)
+			for k, a := range answers {
+				var want []tokAbs
+				for _, t := range ft {
+					if t.line >= a.l1 && t.line <= a.l2 {
+						want = append(want, t)
+					}
+				}
+				if !sameData(a.data, encodeAbs(want)) {
+					fail("range", "range-differs-from-restricted-full", fmt.Sprintf("semanticTokens/range #%d of %d in a row, lines %d..%d of d%d returned %v; the full result restricted to these lines is %v; text=%q", k+1, len(answers), a.l1, a.l2, doc.No, a.data, encodeAbs(want), trunc(doc.Buf.String(), 200)))
+					return
+				}
+				ctx.T("op%d range d%d lines %d..%d -> %d tokens", op, doc.No, a.l1, a.l2, len(a.data)/5)
 			}
-			ctx.T("op%d range d%d lines %d..%d -> %d tokens", op, doc.No, l1, l2, len(a.data)/5)
 			kinds = append(kinds, "range")
 		case 4: // delta
 			idKind := c.Weighted("prev-id", []int{8, 3, 3, 2, 1})
